@@ -127,6 +127,33 @@ func init() {
 					c.res.fail(Failure{Class: "C14:" + s.name + ":encode-alpha", Desc: "alpha does not survive decode then ToRGBA64", Input: map[string]interface{}{"space": s.name, "alpha": a}, Got: fmt.Sprint(r64.A), Want: fmt.Sprint(a)})
 				}
 			}
+			// fully transparent pixels of every concrete colour type, whatever their colour bytes say
+			for k := 0; k < 400; k++ {
+				x, y, z := uint16(rng.Intn(65536)), uint16(rng.Intn(65536)), uint16(rng.Intn(65536))
+				if k < 8 {
+					x, y, z = []uint16{0, 1, 255, 256, 65535, 32768, 257, 65534}[k], uint16(k), uint16(65535-k)
+				}
+				for _, in := range []color.Color{color.RGBA64{R: x, G: y, B: z, A: 0}, color.NRGBA64{R: x, G: y, B: z, A: 0},
+					color.RGBA{R: uint8(x), G: uint8(y), B: uint8(z), A: 0}, color.NRGBA{R: uint8(x), G: uint8(y), B: uint8(z), A: 0}, color.Alpha{A: 0}, color.Alpha16{A: 0}} {
+					r, g, b, al := s.encoded(in)
+					lin := s.linearise(in)
+					c.res.count("transparent-"+s.name, fmt.Sprintf("%s %T %v", s.name, in, in), true)
+					if r != 0 || g != 0 || b != 0 || al != 0 || (lin != color.RGBA64{}) {
+						c.res.fail(Failure{Class: "C14:" + s.name + ":transparent", Desc: "a fully transparent pixel must decode to the zero colour with alpha 0",
+							Input: map[string]interface{}{"space": s.name, "pixel": fmt.Sprintf("%T%v", in, in)}, Got: fmt.Sprint(r, g, b, al, lin), Want: "0 0 0 0 {0 0 0 0}"})
+					}
+				}
+			}
+			if s.rgba != nil {
+				for k := 0; k < 64; k++ {
+					in := color.RGBA{R: uint8(rng.Intn(256)), G: uint8(rng.Intn(256)), B: uint8(rng.Intn(256)), A: 0}
+					r, g, b, al := s.rgba(in)
+					if r != 0 || g != 0 || b != 0 || al != 0 {
+						c.res.fail(Failure{Class: "C14:" + s.name + ":transparent", Desc: "ColorFromRGBA of a fully transparent pixel must be the zero colour with alpha 0",
+							Input: map[string]interface{}{"space": s.name, "pixel": fmt.Sprint(in)}, Got: fmt.Sprint(r, g, b, al), Want: "0 0 0 0"})
+					}
+				}
+			}
 			// 8-bit pairs
 			for a := 0; a < 256; a++ {
 				for ch := 0; ch <= a; ch++ {
